@@ -340,8 +340,8 @@ def radial_projected(mask, pixel_scales, origin, d, centre_frac, angle, remove_c
     H, W = mask.shape
     cy, cx = centre_frac[0] * H * pixel_scales[0], centre_frac[1] * W * pixel_scales[1]
     dist = sorted([H * pixel_scales[0] / 2 - cy, H * pixel_scales[0] / 2 + cy, W * pixel_scales[1] / 2 - cx, W * pixel_scales[1] / 2 + cx])
-    if dist[-1] - dist[-2] < 1e-6:
-        return None                                   # tie between two directions: excluded (floating-point tie)
+    if 0 < dist[-1] - dist[-2] < 1e-6:
+        return None                                   # near-tie between two directions: excluded (an EXACT tie, centre on an axis of the frame, is harmless)
     for s in pixel_scales:
         q = dist[-1] / s
         if abs(q - round(q)) < 1e-6:
